@@ -63,3 +63,71 @@ Section Spec.
   Definition log_tracks_table (c : UpdateSender.cfg) (a : AdjRIBOut.aro P) : Prop :=
     forall p pid, UpdateSenderSpec.adj_rib_out c (client_calls a) (upfx p) pid = keyed_table c a p pid.
 End Spec.
+
+(* ------------------------------------------------------------------ a concrete instance for the examples *)
+(* a selection: highest LOCAL_PREF first (stable), ECMP count 1 *)
+Definition lp_of (p : AdjRIBOut.path) : N :=
+  match p with AdjRIBOut.PBgp _ b => AdjRIBOut.b_lp b | _ => 0%N end.
+
+Fixpoint ins_lp (e : nat * AdjRIBOut.path) (l : list (nat * AdjRIBOut.path)) : list (nat * AdjRIBOut.path) :=
+  match l with
+  | [] => [e]
+  | x :: r => if N.ltb (lp_of (snd x)) (lp_of (snd e)) then e :: l else x :: ins_lp e r
+  end.
+
+Definition ex_sel (_ : nat) (l : list (nat * AdjRIBOut.path)) : list (nat * AdjRIBOut.path) * nat :=
+  (fold_right ins_lp [] l, Nat.min 1 (length l)).
+
+(* a hash for the examples: next hop, LOCAL_PREF and Source tell the paths of the examples apart *)
+Definition ex_tagf (b : AdjRIBOut.bgp) : N :=
+  (AdjRIBOut.b_nh b + 1000 * AdjRIBOut.b_lp b + 1000000 * AdjRIBOut.b_src b)%N.
+
+(* three sessions: two route-server clients that announce (the second one's import policy sets LOCAL_PREF 300),
+   one iBGP peer that listens; best path only, export policy accept-all *)
+Definition ex_sa (ibgp : bool) (asn : N) : AdjRIBIn.sattrs := AdjRIBIn.mkSA ibgp false 16843009%N asn 100%N false false 0%N.
+Definition ex_sess (ibgp rs : bool) (ip : N) : AdjRIBOut.sess :=
+  AdjRIBOut.mkSess ibgp rs false false 65000%N 16843009%N ip 9%N false 0%N.
+Definition ex_scfg (ibgp rs : bool) (asn ip : N) (pol : AdjRIBIn.policy) : scfg AdjRIBOut.chain :=
+  mkScfg AdjRIBOut.chain (ex_sa ibgp asn) pol ip (ip + 100)%N 65000%N None (ex_sess ibgp rs ip)
+         (LocRIBClients.mkOpts true false 0) [] (UpdateSender.mkcfg UpdateSender.V4 false true ibgp false).
+
+Definition ex_cfgs : list (scfg AdjRIBOut.chain) :=
+  [ex_scfg false true 65101%N 167772161%N (AdjRIBIn.sample_policy 0 0);
+   ex_scfg false true 65102%N 167772162%N (AdjRIBIn.sample_policy 3 300);
+   ex_scfg true false 65000%N 167772163%N (AdjRIBIn.sample_policy 0 0)].
+
+Definition ex_path (nh asn : N) : AdjRIBIn.path := AdjRIBIn.mkPath 0 0 0 nh [asn] 0 [] 0 0.
+
+(* all come up; both clients announce prefix 1; the listener's sender is drained *)
+Definition ex_evs1 : list event :=
+  [EUp 0; EUp 1; EUp 2; EAnnounce 0 1%N (ex_path 201326593 65101); EAnnounce 1 1%N (ex_path 201326594 65102)].
+Definition ex_key (nh lp src : N) : UpdateSender.key := ((nh + 1000 * lp + 1000000 * src)%N, 0%N).
+Definition ex_drain2a : list event := [EDequeue 2 (ex_key 201326594 300 167772162); EEmit 2].
+(* the second client goes down; the listener's sender is drained again *)
+Definition ex_drain2b : list event := [EDequeue 2 (ex_key 201326593 100 167772161); EEmit 2].
+
+Definition ex_run (evs : list event) : pst AdjRIBOut.chain :=
+  run AdjRIBOut.chain AdjRIBOut.interp ex_sel ex_tagf ex_cfgs evs.
+
+Definition ex_sess_at (st : pst AdjRIBOut.chain) (k : nat) : sst AdjRIBOut.chain :=
+  nth k (ps_sess AdjRIBOut.chain st) (dead_sst AdjRIBOut.chain (ex_scfg true false 0 0 (fun _ _ => None))).
+
+(* ------------------------------------------------------------------ the witness of the known finding
+   addpath-duplicate-export-withdrawn-while-copy-remains: peer 0 (add-path receive) sends two paths that differ in
+   NEXT_HOP only, the import policy sets the next hop; session 1 (add-path send) exports both as ONE announcement
+   (one path id); peer 0 withdraws the first *)
+Definition dup_cfgs : list (scfg AdjRIBOut.chain) :=
+  [mkScfg AdjRIBOut.chain (AdjRIBIn.mkSA false true 16843009%N 65101%N 100%N false false 0%N)
+          (AdjRIBIn.sample_policy 6 218103809) 167772161%N 167772261%N 65000%N None
+          (ex_sess false true 167772161%N) (LocRIBClients.mkOpts true false 0) []
+          (UpdateSender.mkcfg UpdateSender.V4 false true false false);
+   mkScfg AdjRIBOut.chain (ex_sa false 65102) (AdjRIBIn.sample_policy 0 0) 167772162%N 167772262%N 65000%N None
+          (AdjRIBOut.mkSess false true false true 65000%N 16843009%N 167772162%N 9%N false 0%N)
+          (LocRIBClients.mkOpts false false 2) [] (UpdateSender.mkcfg UpdateSender.V4 true true false false)].
+Definition dup_path (id nh : N) : AdjRIBIn.path := AdjRIBIn.mkPath id 200 0 nh [65101%N] 0 [] 0 0.
+Definition dup_evs : list event :=
+  [EUp 0; EUp 1; EAnnounce 0 0%N (dup_path 0 201326594); EAnnounce 0 0%N (dup_path 2 201326593);
+   EDequeue 1 ((218103809 + 1000 * 200 + 1000000 * 167772161)%N, 1%N); EEmit 1; EWithdraw 0 0%N 0%N].
+Definition dup_state : pst AdjRIBOut.chain := run AdjRIBOut.chain AdjRIBOut.interp ex_sel ex_tagf dup_cfgs dup_evs.
+
+Definition ex_tagf_of (nh lp src : N) : N := (nh + 1000 * lp + 1000000 * src)%N.
